@@ -976,8 +976,8 @@ theorem search_patch_hits (D : CharSet) (r : Rx) (hr : r.mustHit D = true) (text
     have := hits_pos D c h4
     omega
 
-def digitsD : CharSet := Gen.cs1
-def fracD : CharSet := Gen.cs7 ++ Gen.cs12
+def digitsD : CharSet := Gen.cs_940665b9
+def fracD : CharSet := Gen.cs_ec6bba2a ++ Gen.cs_a7428032
 
 /-- every match of the lot pattern contains a decimal digit; every match of the aliquot pattern contains ½ or ¼ -/
 theorem extract_patterns_mustHit :
@@ -1428,7 +1428,7 @@ theorem mem_single {n : Nat} {ch : Char} (h : CharSet.mem [(n, n)] ch = true) : 
 theorem mu_ge_length (D : CharSet) (c : Str) : c.length ≤ mu D c := by unfold mu; omega
 
 theorem ws0 : ShrinksBy (mu wsD) (Gen.inl_plss_preprocess_reduce_whitespace_0.sub (S " ")) := by
-  apply sub_shrinksBy wsD Gen.cs81
+  apply sub_shrinksBy wsD Gen.cs_519b193f
   intro c ⟨hw, _, ha⟩
   have hw' : 1 ≤ c.length := hw
   have ha' := ha (by decide)
@@ -1460,7 +1460,7 @@ theorem ws2 : ShrinksBy (mu wsD) (Gen.inl_plss_preprocess_reduce_whitespace_2.su
   ws_strict _ _ (by decide) (by decide) (by decide)
 
 theorem ws3 : ShrinksBy (mu wsD) (Gen.inl_plss_preprocess_reduce_whitespace_3.sub (S "\n\n")) := by
-  apply sub_shrinksBy wsD Gen.cs84
+  apply sub_shrinksBy wsD Gen.cs_4e017fa7
   intro c ⟨hw, _, ha⟩
   have hw' : 2 ≤ c.length := hw
   have ha' := ha (by decide)
